@@ -278,7 +278,7 @@ func c16Items(r *rand.Rand, s *model.Schema, split bool, lateOK bool) []*defItem
 type arrangement struct {
 	how   string
 	loads []string
-	final *model.Schema // the definition set with every type's members in the order the arrangement merges them (nil: as given)
+	final *model.Schema     // the definition set with every type's members in the order the arrangement merges them (nil: as given)
 	files map[string]string // when set: one Root.ParseFS call over these files instead of the loads
 }
 
@@ -439,7 +439,9 @@ func c16Run(a arrangement) c16Outcome {
 	var out c16Outcome
 	if a.files != nil {
 		var err error
-		pv, _ := run.Protect(func() { err = root.ParseFS(&faultyFS{files: a.files, failOpen: -1, failRead: -1, failClose: -1}, "*.graphql") })
+		pv, _ := run.Protect(func() {
+			err = root.ParseFS(&faultyFS{files: a.files, failOpen: -1, failRead: -1, failClose: -1}, "*.graphql")
+		})
 		if pv != nil {
 			out.err = fmt.Sprintf("ParseFS panics: %v", pv)
 			return out
